@@ -23,15 +23,26 @@ def is_z3(x):
     return isinstance(x, z3.ExprRef)
 
 
+_Z0 = z3.RealVal(0)
+_Z1 = z3.RealVal(1)
+_Z0_ID = _Z0.get_id()
+_Z1_ID = _Z1.get_id()
+
+
 def is_zero(x):
-    if is_z3(x):
-        return z3.is_rational_value(x) and x.as_fraction() == 0
+    "syntactic zero (z3 numerals are hash-consed: one AST per value while it is alive)"
+    if x is _Z0:
+        return True
+    if isinstance(x, z3.ExprRef):
+        return x.get_id() == _Z0_ID
     return x == 0
 
 
 def is_one(x):
-    if is_z3(x):
-        return z3.is_rational_value(x) and x.as_fraction() == 1
+    if x is _Z1:
+        return True
+    if isinstance(x, z3.ExprRef):
+        return x.get_id() == _Z1_ID
     return x == 1
 
 
@@ -40,8 +51,8 @@ class Num:
 
     def __init__(self, symbolic):
         self.symbolic = symbolic
-        self.zero = z3.RealVal(0) if symbolic else Fraction(0)
-        self.one = z3.RealVal(1) if symbolic else Fraction(1)
+        self.zero = _Z0 if symbolic else Fraction(0)
+        self.one = _Z1 if symbolic else Fraction(1)
 
     def add(self, a, b):
         if is_zero(a):
@@ -559,7 +570,25 @@ def _states(arcs, start, stop):
     return Q
 
 
+_CLOSURE_CACHE = {}
+
+
 def _eps_closure(arcs, Q, is_eps, num, pivots):
+    key = (id(arcs), num.symbolic)
+    hit = _CLOSURE_CACHE.get(key)
+    if hit is not None and hit[0] is arcs:
+        pivots.extend(hit[2])
+        return hit[1]
+    piv = []
+    K = _eps_closure_uncached(arcs, Q, is_eps, num, piv)
+    if len(_CLOSURE_CACHE) > 64:
+        _CLOSURE_CACHE.clear()
+    _CLOSURE_CACHE[key] = (arcs, K, piv)
+    pivots.extend(piv)
+    return K
+
+
+def _eps_closure_uncached(arcs, Q, is_eps, num, pivots):
     A = {}
     for i, a, j, w in arcs:
         if is_eps(a) and not is_zero(w):
